@@ -1,6 +1,6 @@
 // Command seq_agent decides C18 and the stop clause of C01 at the level of the WHOLE agent: every case runs the shipped
 // top-level function run.Run(configFile, metricAddress, allowReload) in-process, on real loopback sockets and real threads,
-// with real upstreams (the fluentlib forward server with a MessageCollector, a small HTTP server for the Datadog output, a
+// with real upstreams (the fluentlib forward server with a collecting receiver, a small HTTP server for the Datadog output, a
 // port where nothing listens, a listener that accepts, reads and never answers), and stops it the way production does: by
 // sending SIGTERM to the own process (run.Run registers signal.Notify itself). Nothing of the stop sequence is re-implemented
 // by the harness: shutdownInputs(), Orchestrator.Shutdown(), the listener, the concrete connection types and the order between
@@ -216,18 +216,20 @@ func waitAgentHasRead(conn net.Conn) bool {
 	}
 	lp := conn.LocalAddr().(*net.TCPAddr).Port
 	rp := conn.RemoteAddr().(*net.TCPAddr).Port
-	find := func(l, r int) *sockRow {
-		rows, _ := readSockets()
-		for i := range rows {
-			if rows[i].lport == l && rows[i].rport == r {
-				return &rows[i]
-			}
-		}
-		return nil
-	}
-	waitFor(func() bool { r := find(lp, rp); return r != nil && r.txq == 0 })
-	waitFor(func() bool { r := find(rp, lp); return r != nil && r.state == tcpEstablished && r.rxq == 0 })
+	waitFor(func() bool { r := findSocket(lp, rp); return r != nil && r.txq == 0 })
+	waitFor(func() bool { r := findSocket(rp, lp); return r != nil && r.state == tcpEstablished && r.rxq == 0 })
 	return true
+}
+
+// findSocket returns the kernel's row of the loopback socket with the given local and remote port, or nil
+func findSocket(lport, rport int) *sockRow {
+	rows, _ := readSockets()
+	for i := range rows {
+		if rows[i].lport == lport && rows[i].rport == rport {
+			return &rows[i]
+		}
+	}
+	return nil
 }
 
 // noServerConnections reports whether no socket of the server side (local port = port) is open any more
@@ -860,9 +862,11 @@ func runCase(s spec) (string, string) {
 				app = fmt.Sprintf("gamma%d", i)
 			}
 			r := cs.newRecord(app, false)
-			c.Write([]byte(r.wire))
+			_, werr := c.Write([]byte(r.wire))
 			open = append(open, c)
-			lastMinute = append(lastMinute, lateConn{c, r})
+			if werr == nil {
+				lastMinute = append(lastMinute, lateConn{c, r})
+			}
 		}
 	}
 
@@ -893,21 +897,13 @@ stopWait:
 	for _, lc := range lastMinute {
 		lc.conn.SetReadDeadline(time.Now().Add(30 * time.Second)) // still open after the agent has stopped: no evidence either way
 		_, err := lc.conn.Read(make([]byte, 16))
-		if err == io.EOF {
-			require([]*record{lc.rec}, "the agent ended the connection in an orderly way (end of stream, no reset): it had read every byte written to it")
-		} else if debugFile != "" {
-			rows, _ := readSockets()
-			lp := lc.conn.LocalAddr().(*net.TCPAddr).Port
-			rp := lc.conn.RemoteAddr().(*net.TCPAddr).Port
-			txt := ""
-			for _, r := range rows {
-				if (r.lport == lp && r.rport == rp) || (r.lport == rp && r.rport == lp) || (r.lport == rp && r.state == 10) {
-					txt += fmt.Sprintf(" %+v", r)
-				}
-			}
-			if f, ferr := os.OpenFile(debugFile, os.O_APPEND|os.O_CREATE|os.O_WRONLY, 0o644); ferr == nil {
-				fmt.Fprintf(f, "LATE %s: read error %v; sockets:%s\n", s.id(), err, txt)
-				f.Close()
+		// (end of stream alone is not enough: if the agent had closed BEFORE the bytes arrived, the end of stream would be
+		// followed by a reset. The kernel must also show this socket still half-open — no reset received — with every byte
+		// acknowledged by the agent's TCP, i.e. taken into the receive queue of a socket the agent had not closed yet.)
+		if err == io.EOF && procNetUsable {
+			lp, rp := lc.conn.LocalAddr().(*net.TCPAddr).Port, lc.conn.RemoteAddr().(*net.TCPAddr).Port
+			if r := findSocket(lp, rp); r != nil && r.state == tcpCloseWait && r.txq == 0 {
+				require([]*record{lc.rec}, "the agent ended the connection in an orderly way (end of stream, no reset, every byte acknowledged): it had read every byte written to it")
 			}
 		}
 	}
@@ -948,7 +944,13 @@ stopWait:
 	}
 	if debugFile != "" {
 		if f, err := os.OpenFile(debugFile, os.O_APPEND|os.O_CREATE|os.O_WRONLY, 0o644); err == nil {
-			fmt.Fprintf(f, "%6.2fs (stop %5.2fs) %s: %s; possibly unread %d; missing required %d\n", time.Since(caseStart).Seconds(), stopTook.Seconds(), s.id(), detail, possiblyUnread, len(missingRequired))
+			lateRead := 0
+			for _, lc := range lastMinute {
+				if lc.rec.required {
+					lateRead++
+				}
+			}
+			fmt.Fprintf(f, "%6.2fs (stop %5.2fs) %s: %s; possibly unread %d; missing required %d; last-minute records shown read %d/%d\n", time.Since(caseStart).Seconds(), stopTook.Seconds(), s.id(), detail, possiblyUnread, len(missingRequired), lateRead, len(lastMinute))
 			f.Close()
 		}
 	}
